@@ -89,6 +89,9 @@ std::unique_ptr<NodeResult> AssignNode::evaluate(PSC::Context &ctx) {
         
         if (pedantic)
             throw PSC::PedanticError(token, "Assigning to undeclared variable");
+
+        if (valueRes->type == PSC::DataType::NONE)
+            throw PSC::RuntimeError(token, ctx, "Expected a value for assignment");
         
         var = new PSC::Variable(simpleSource->getName(), valueRes->type, false, &ctx);
         ctx.addVariable(var);
